@@ -55,6 +55,8 @@ EXPECT_PROBES = ["has_cycle", "one_way_link", "parallel_links", "link_down",
                  "link_up", "control_reset", "silent_switch", "converged",
                  "reset_with_probe_in_flight", "wire_pads_short_frames",
                  "flood_sim", "big_dpid", "big_port", "port_deleted",
+                 "dpid_leading_digit_d", "dpid_leading_digit_c",
+                 "dpid_leading_digit_e", "dpid_leading_digit_2",
                  "port_readded"]
 
 # dpids of every hex-digit length (the probe carries the dpid as hex text):
@@ -76,6 +78,29 @@ def gen_plan(seed, tier):
   if dense:
     nsw = 12
   dpids = r.sample(DPID_POOL, nsw)
+  # every hex digit in the leading position (the probe carries the dpid as
+  # hex text behind a 'dpid:' tag), with a random tail of every length; and
+  # pairs that differ only in their leading digits (d1 / 1, dd07 / 7).  Own
+  # stream: the other draws of the plan stay what they were.
+  r5 = Rng(mix(seed, "dpidlead"))
+  if r5.chance(0.35):
+    for k in range(nsw):
+      if r5.chance(0.5):
+        ndig = r5.randint(2, 16)
+        lead = r5.randint(1, 15)
+        tail = r5.getrandbits(4 * (ndig - 1))
+        if r5.chance(0.3):
+          tail &= 0xff                       # mostly zeros after the lead
+        d = (lead << (4 * (ndig - 1))) | tail
+        if r5.chance(0.3) and dpids[k - 1] < (1 << 56):
+          # the neighbour's dpid with one or two digits in front of it
+          base = dpids[k - 1]
+          w = max(1, (base.bit_length() + 3) // 4)
+          d = base | (lead << (4 * w))
+          if r5.chance(0.5) and d < (1 << 60):
+            d |= lead << (4 * (w + 1))
+        if d and d not in dpids:
+          dpids[k] = d
   cfg = {"dpids": dpids, "link_timeout": 10 if dense else r.pick([4, 4, 10]),
          "segment": r.chance(0.3), "delay": r.chance(0.3),
          "link_delay": r.pick([0, 0, 2]), "max_buffers": r.pick([0, 4, 100]),
@@ -264,6 +289,8 @@ def _drive(sim, plan, known, hit):
   dpids = cfg["dpids"]
   if any(d >= (1 << 48) for d in dpids):
     sim.probes["big_dpid"] += 1
+  for c in set(("%x" % d)[0] for d in dpids if d > 15):
+    sim.probes["dpid_leading_digit_" + c] += 1
   if any(p >= 0xff00 - 256 for ps in cfg["ports"].values() for p in ps):
     sim.probes["big_port"] += 1
   for d in dpids:
